@@ -57,7 +57,7 @@ pub fn gen_cfg(cfg: &Cfg) -> GenCfg {
 }
 
 pub fn run(cfg: &Cfg, rep: &mut Report) {
-  let total = cfg.n(120_000, 12_000_000);
+  let total = cfg.n(300_000, 12_000_000);
   let gcfg = gen_cfg(cfg);
   let mut rng = Rng::new(cfg.seed ^ 0xC02);
   for i in 0..total {
@@ -151,7 +151,7 @@ pub fn run(cfg: &Cfg, rep: &mut Report) {
   }
 
   // thread part: an emitting thread races the unsubscribing thread (baton scheduler)
-  let n = cfg.n(6_000, 600_000);
+  let n = cfg.n(12_000, 600_000);
   let fams = [0usize, 2, 3, 4, 5, 6, 7, 8, 9, 11, 12, 13, 15, 16, 17, 18];
   super::thr::systematic_families(cfg, rep, 0xC02A, &fams, &|s, r| {
     if !s.threads.iter().flatten().any(|op| matches!(op, super::thr::TOp::Unsub(0))) {
